@@ -129,9 +129,10 @@ Definition add_access_dropped s n := Build_stats (s_hits s) (s_misses s) (s_keys
 
 Definition upd_st (f : stats -> Z -> stats) (n : Z) (s : state) : state := set_st s (f (st s) n).
 
-(** hit ratio as the code computes it (stats/mod.rs:150-157): numerator, denominator; (0, 1) stands for 0.0 *)
+(** hit ratio as the code computes it (stats/mod.rs:150-157, after the fix "hits == 0" only): numerator,
+    denominator; (0, 1) stands for 0.0 *)
 Definition hit_ratio (x : stats) : Z * Z :=
-  if (s_hits x =? 0) || (s_misses x =? 0) then (0, 1) else (s_hits x, s_hits x + s_misses x).
+  if s_hits x =? 0 then (0, 1) else (s_hits x, s_hits x + s_misses x).
 
 (** * Time (clock.rs, stored_value.rs, expiration/mod.rs) *)
 Definition has_passed (now_ t : Z) : bool := t <? now_.          (* now > t *)
@@ -506,6 +507,16 @@ Definition call_put (cfg : config) (tid k v w : Z) (ttl : option Z) (s : state) 
   | Some t => do_send cfg tid (CPutTTL k v id h w t) s1
   end.
 
+(** classification of an expiry change (store/mod.rs:65-81) *)
+Inductive exp_update := XNothing | XAdded (n : Z) | XDeleted (o : Z) | XUpdated (o n : Z).
+Definition type_of_expiry_update (old new : option Z) : exp_update :=
+  match old, new with
+  | None, None => XNothing
+  | None, Some n => XAdded n
+  | Some o, None => XDeleted o
+  | Some o, Some n => if o =? n then XNothing else XUpdated o n
+  end.
+
 (** put_or_update (cached.rs:264-319) *)
 Definition call_upsert (cfg : config) (tid k : Z) (v w ttl : option Z) (rm : bool) (s : state) : state * list Z :=
   let uw := match w with
@@ -547,19 +558,18 @@ Definition call_upsert (cfg : config) (tid k : Z) (v w ttl : option Z) (rm : boo
           let existing := match alookup id (weights s1) with Some wk => w_weight wk | None => 0 end in
           (* type_of_expiry_update drives the ticker and the weight adjustment *)
           let '(s2, uw') :=
-            match e_exp e, new_exp with
-            | None, None => (s1, Some uw)
-            | None, Some n =>
+            match type_of_expiry_update (e_exp e) new_exp with
+            | XNothing => (s1, Some uw)
+            | XAdded n =>
                 (set_ticker s1 (ticker_put cfg id n (ticker s1)),
                  match uw with Some x => Some (Some x)
                              | None => match add_i64 cfg existing ttl_entry_size with Some x => Some (Some x) | None => None end end)
-            | Some o, None =>
+            | XDeleted o =>
                 (set_ticker s1 (ticker_delete cfg id o (ticker s1)),
                  match uw with Some x => Some (Some x)
                              | None => match add_i64 cfg existing (- ttl_entry_size) with Some x => Some (Some x) | None => None end end)
-            | Some o, Some n =>
-                if o =? n then (s1, Some uw)
-                else (set_ticker s1 (ticker_update cfg id o n (ticker s1)), Some uw)
+            | XUpdated o n =>
+                (set_ticker s1 (ticker_update cfg id o n (ticker s1)), Some uw)
             end in
           match uw' with
           | None => (s2, [4; site_i64_overflow])
@@ -676,13 +686,16 @@ Definition worker_step (cfg : config) (orc : worker_oracle) (s : state) : state 
       let s0 := set_queue s q in
       match c with
       | CPut k v id h w =>
+          (* the worker re-checks presence (fix for two puts of one key pending together) *)
+          if amem k (store s0) then (set_ack a (Rejected KeyAlreadyExists) s0, [5; 5]) else
           match admit cfg orc k id h w s0 with
           | (AdStatus Accepted, s1, vs) => (set_ack a Accepted (store_insert k v id None s1), 5 :: 1 :: map sk_id vs)
           | (AdStatus x, s1, vs) => (set_ack a x (upd_st add_keys_rejected 1 s1), 5 :: status_code x :: map sk_id vs)
           | (AdPanic site, s1, _) => (set_worker s1 Dead, [4; site])
-          | (AdInadmissible why, s1, _) => (s1, [7; why])
+          | (AdInadmissible why, _, _) => (s, [7; why])
           end
       | CPutTTL k v id h w ttl =>
+          if amem k (store s0) then (set_ack a (Rejected KeyAlreadyExists) s0, [5; 5]) else
           match admit cfg orc k id h w s0 with
           | (AdStatus Accepted, s1, vs) =>
               match calc_expiry (now s1) ttl with
@@ -693,7 +706,7 @@ Definition worker_step (cfg : config) (orc : worker_oracle) (s : state) : state 
               end
           | (AdStatus x, s1, vs) => (set_ack a x (upd_st add_keys_rejected 1 s1), 5 :: status_code x :: map sk_id vs)
           | (AdPanic site, s1, _) => (set_worker s1 Dead, [4; site])
-          | (AdInadmissible why, s1, _) => (s1, [7; why])
+          | (AdInadmissible why, _, _) => (s, [7; why])
           end
       | CUpdateWeight id w =>
           match weights_update cfg id w s0 with
